@@ -6,6 +6,7 @@ CONSTANTS
   Types = {"result", "error"}
   OpenKinds = {"plain", "sm", "smr", "resumed"}
   Cids = {"fresh", "empty", "dup"}
+  Bodies = {"none"}
   Attempts = {}
   IdRule = "replace"
   MaxHist = 99
